@@ -110,11 +110,12 @@ for (const line of lines) {
       // precedence and isolation of the generic header options: client default x per-call value, then a plain call
       const prec = [];
       for (const name of (c.names || [])) {
-        for (const mode of ['default_only', 'call_only', 'both', 'both_then_plain']) {
+        for (const mode of ['default_only', 'call_only', 'both', 'both_then_plain', 'both_default_in_lower_case']) {
           let rec = null;
           const fetchFn = async (url, init) => { rec = { headers: hdrObj(init && init.headers) }; return new Response('{}', { status: 200, headers: { 'Content-Type': 'application/json' } }); };
           try {
-            const cl = new Cls('http://verif.test', mode === 'call_only' ? { fetch: fetchFn } : { fetch: fetchFn, defaultHeaders: { [name]: 'dv' } });
+            // (header names are case-insensitive: a default given in another letter case is the same header)
+            const cl = new Cls('http://verif.test', mode === 'call_only' ? { fetch: fetchFn } : { fetch: fetchFn, defaultHeaders: { [mode === 'both_default_in_lower_case' ? name.toLowerCase() : name]: 'dv' } });
             const mn = findMethod(cl, c.rpc);
             await cl[mn](structuredClone(c.reqObj), mode === 'default_only' ? undefined : { headers: { [name]: 'cv' } });
             if (mode === 'both_then_plain') await cl[mn](structuredClone(c.reqObj), undefined);
@@ -122,6 +123,28 @@ for (const line of lines) {
             const wire = new Headers(); for (const [k, v] of Object.entries(rec ? rec.headers : {})) wire.append(k, v);
             const got = wire.get(name);
             prec.push({ header: name, mode, got: got == null ? [] : [got], want: (mode === 'default_only' || mode === 'both_then_plain') ? 'dv' : 'cv' });
+          } catch (e) { prec.push({ header: name, mode, error: String(e && e.message || e) }); }
+        }
+      }
+      // the same precedence when the two levels use DIFFERENT option kinds: a typed option (which writes the declared spelling of
+      // its header) at one level and the generic header map at the other, and typed options at both levels
+      for (const h of c.helpers) {
+        const known = res.find((r) => r.helper === h && r.level === 'client' && r.under && r.under.length === 1);
+        if (!known) continue;
+        const name = known.under[0];
+        for (const mode of ['typed_default_only', 'map_default+typed_call', 'typed_default+map_call', 'typed_default+typed_call', 'typed_default+map_call_then_plain']) {
+          let rec = null;
+          const fetchFn = async (url, init) => { rec = { headers: hdrObj(init && init.headers) }; return new Response('{}', { status: 200, headers: { 'Content-Type': 'application/json' } }); };
+          try {
+            const copts = mode.startsWith('map_default') ? { fetch: fetchFn, defaultHeaders: { [name]: 'dv' } } : { fetch: fetchFn, [h]: 'dv' };
+            const kopts = mode === 'typed_default_only' ? undefined : (mode.includes('typed_call') ? { [h]: 'cv' } : { headers: { [name]: 'cv' } });
+            const cl = new Cls('http://verif.test', copts);
+            const mn = findMethod(cl, c.rpc);
+            await cl[mn](structuredClone(c.reqObj), kopts);
+            if (mode.endsWith('_then_plain')) await cl[mn](structuredClone(c.reqObj), undefined);
+            const wire = new Headers(); for (const [k, v] of Object.entries(rec ? rec.headers : {})) wire.append(k, v);
+            const got = wire.get(name);
+            prec.push({ header: name, mode, got: got == null ? [] : [got], want: (mode === 'typed_default_only' || mode.endsWith('_then_plain')) ? 'dv' : 'cv' });
           } catch (e) { prec.push({ header: name, mode, error: String(e && e.message || e) }); }
         }
       }
